@@ -1,8 +1,11 @@
 //! S7b: threads from a cold process under a controlled (seeded) scheduler.
-//! Natively:   mirithreads expected <workload_seed> <threads>         prints the sequential expectations
-//! Under Miri: mirithreads run <workload_seed> <threads> <expected>   threads race from a barrier; every
-//!             result is compared with the expectation; Miri's seeded scheduler decides every preemption and
-//!             its data-race detector watches the one-time initialisations.
+//! Natively:   mirithreads expected <base_seed> <nworkloads>           prints the sequential expectations table
+//!             mirithreads plan <base_seed> <nworkloads>               prints the workloads
+//! Under Miri: mirithreads run <base_seed> <nworkloads> <table> [idx]  picks ONE workload - from the interpreter's
+//!             seeded address randomisation unless idx is given, so that one `-Zmiri-seed` is one workload and one
+//!             schedule - releases its threads from a barrier and compares every result with the expectation.
+//! In every workload ALL threads make the same kind of call first (racing on whatever that call initialises
+//! lazily in a cold process); the focus kind cycles over all operation kinds with the workload index.
 use std::sync::atomic::{AtomicU64, Ordering};
 use std::sync::{Arc, Barrier};
 
@@ -10,10 +13,11 @@ use blake_hash::{Blake256, Blake512};
 use c2_chacha::{ChaCha20, Ietf};
 use cipher::generic_array::GenericArray;
 use cipher::{BlockEncrypt, NewBlockCipher, NewCipher, StreamCipher, StreamCipherSeek};
+use digest::generic_array::typenum::{U128, U32, U64};
 use digest::Digest;
 use groestl_aesni::{Groestl224, Groestl256, Groestl384, Groestl512};
-use jh_x86_64::Jh256;
-use skein_hash::Skein256;
+use jh_x86_64::{Jh256, Jh512};
+use skein_hash::{Skein1024, Skein256, Skein512};
 use threefish_cipher::Threefish256;
 
 fn splitmix(x: &mut u64) -> u64 {
@@ -32,10 +36,13 @@ fn fold(b: &[u8]) -> u64 {
     h
 }
 
-pub const NOPS: u64 = 11;
-pub const OP_NAMES: [&str; 11] = ["groestl256", "groestl512", "groestl224", "groestl384", "jh256", "blake256", "blake512", "chacha20", "ietf_seek", "skein256", "threefish256"];
+pub const OP_NAMES: [&str; 15] = [
+    "groestl256", "groestl512", "groestl224", "groestl384", "jh256", "blake256", "blake512", "chacha20", "ietf_seek", "skein256_256", "threefish256", "skein512_512", "skein1024_1024",
+    "jh512", "skein512_256",
+];
+pub const NOPS: u64 = 15;
 
-/// one short operation on a private instance; message/key derived from (thread, step) so that every result is unique
+/// one short operation on a private instance; message/key derived from the tag so that every result is unique
 fn op(kind: u64, tag: u64) -> u64 {
     let mut s = tag;
     let mut msg = [0u8; 40];
@@ -64,77 +71,102 @@ fn op(kind: u64, tag: u64) -> u64 {
             c.apply_keystream(&mut buf);
             fold(&buf)
         }
-        9 => fold(&Skein256::<digest::generic_array::typenum::U32>::digest(&msg[..n])),
-        _ => {
+        9 => fold(&Skein256::<U32>::digest(&msg[..n])),
+        10 => {
             let f = Threefish256::new(GenericArray::from_slice(&msg[..32]));
             let mut b = GenericArray::clone_from_slice(&msg[8..40]);
             f.encrypt_block(&mut b);
             fold(&b)
         }
+        11 => fold(&Skein512::<U64>::digest(&msg[..n])),
+        12 => fold(&Skein1024::<U128>::digest(&msg[..n])),
+        13 => fold(&Jh512::digest(&msg[..n])),
+        _ => fold(&Skein512::<U32>::digest(&msg[..n])),
     }
 }
 
-/// the operation list of thread `t`: the first entry is what the thread calls FIRST in the cold process
-fn plan(workload_seed: u64, t: u64, steps: u64) -> Vec<(u64, u64)> {
-    let mut s = workload_seed ^ t.wrapping_mul(0x1234_5678_9abc_def1);
-    let mut v = Vec::new();
-    // bias first calls towards the lazily initialised Groestl entry points so that threads race on the same
-    // and on different tables
-    let first = match splitmix(&mut s) % 8 {
-        0 | 1 | 2 => 0,
-        3 | 4 => 1,
-        5 => 2 + splitmix(&mut s) % 2,
-        _ => splitmix(&mut s) % NOPS,
-    };
-    v.push((first, splitmix(&mut s)));
-    for _ in 1..steps {
-        v.push((splitmix(&mut s) % NOPS, splitmix(&mut s)));
+/// workload `w`: (threads, per-thread op lists). Every thread's FIRST call is of the focus kind.
+fn workload(base: u64, w: u64) -> Vec<Vec<(u64, u64)>> {
+    let mut s = base ^ w.wrapping_mul(0x1234_5678_9abc_def1);
+    let focus = w % NOPS;
+    let threads = 2 + splitmix(&mut s) % 3;
+    let steps = 2 + splitmix(&mut s) % 2;
+    let mut out = Vec::new();
+    for _ in 0..threads {
+        let mut v = vec![(focus, splitmix(&mut s))];
+        for _ in 1..steps {
+            // later calls: mostly other lazily initialised entry points, racing with the other threads' first calls
+            let k = if splitmix(&mut s) % 3 == 0 { (focus + 1 + splitmix(&mut s) % 3) % NOPS } else { splitmix(&mut s) % NOPS };
+            v.push((k, splitmix(&mut s)));
+        }
+        out.push(v);
     }
-    v
+    out
 }
 
 fn main() {
     let a: Vec<String> = std::env::args().collect();
     let mode = a.get(1).map(|s| s.as_str()).unwrap_or("");
-    let seed: u64 = a.get(2).and_then(|s| s.parse().ok()).unwrap_or(1);
-    let threads: u64 = a.get(3).and_then(|s| s.parse().ok()).unwrap_or(3);
-    let steps: u64 = a.get(4).and_then(|s| s.parse().ok()).unwrap_or(3);
+    let base: u64 = a.get(2).and_then(|s| s.parse().ok()).unwrap_or(1);
+    let nw: u64 = a.get(3).and_then(|s| s.parse().ok()).unwrap_or(15);
     match mode {
         "expected" => {
-            // sequential, one at a time
-            let mut out = Vec::new();
-            for t in 0..threads {
-                for (k, tag) in plan(seed, t, steps) {
-                    out.push(format!("{:016x}", op(k, tag)));
+            // sequential, one at a time; workloads separated by ';'
+            let mut all = Vec::new();
+            for w in 0..nw {
+                let mut out = Vec::new();
+                for t in workload(base, w) {
+                    for (k, tag) in t {
+                        out.push(format!("{:x}", op(k, tag)));
+                    }
                 }
+                all.push(out.join(","));
             }
-            println!("{}", out.join(","));
+            println!("{}", all.join(";"));
         }
         "plan" => {
-            for t in 0..threads {
-                let p: Vec<String> = plan(seed, t, steps).iter().map(|(k, tag)| format!("{}#{:x}", OP_NAMES[*k as usize], tag)).collect();
-                println!("thread {}: {}", t, p.join(" "));
+            for w in 0..nw {
+                let p: Vec<String> = workload(base, w).iter().map(|t| t.iter().map(|(k, tag)| format!("{}#{:x}", OP_NAMES[*k as usize], tag & 0xffff)).collect::<Vec<_>>().join(" ")).collect();
+                println!("workload {}: {}", w, p.join(" | "));
             }
         }
         "run" => {
-            let expected: Vec<u64> = a.get(5).map(|s| s.split(',').filter_map(|x| u64::from_str_radix(x, 16).ok()).collect()).unwrap_or_default();
-            assert_eq!(expected.len() as u64, threads * steps, "expectation list does not match the workload");
-            let barrier = Arc::new(Barrier::new(threads as usize));
+            let table: Vec<&str> = a.get(4).map(|s| s.split(';').collect()).unwrap_or_default();
+            assert_eq!(table.len() as u64, nw, "expectation table does not match the number of workloads");
+            let w = match a.get(5).and_then(|s| s.parse::<u64>().ok()) {
+                Some(i) => i % nw,
+                None => {
+                    // the interpreter's seeded address randomisation picks the workload: one -Zmiri-seed = one workload
+                    let mut x = 0u64;
+                    for size in [1usize, 24, 100, 1000, 5000] {
+                        let probe = vec![0u8; size];
+                        x = x.rotate_left(13) ^ (probe.as_ptr() as usize as u64);
+                        x = splitmix(&mut x);
+                    }
+                    x % nw
+                }
+            };
+            let plan = workload(base, w);
+            let expected: Vec<u64> = table[w as usize].split(',').filter_map(|x| u64::from_str_radix(x, 16).ok()).collect();
+            let threads = plan.len();
+            println!("WORKLOAD {} threads={} first={}", w, threads, OP_NAMES[(w % NOPS) as usize]);
+            let barrier = Arc::new(Barrier::new(threads));
             // Relaxed counters only: logging must not add a happens-before edge that could hide a race
             let mismatches = Arc::new(AtomicU64::new(0));
             let first_bad = Arc::new(AtomicU64::new(u64::MAX));
             let mut hs = Vec::new();
-            for t in 0..threads {
+            let mut off = 0;
+            for (t, p) in plan.into_iter().enumerate() {
                 let (b, mm, fb) = (barrier.clone(), mismatches.clone(), first_bad.clone());
-                let exp: Vec<u64> = expected[(t * steps) as usize..((t + 1) * steps) as usize].to_vec();
+                let exp: Vec<u64> = expected[off..off + p.len()].to_vec();
+                off += p.len();
                 hs.push(std::thread::spawn(move || {
-                    let p = plan(seed, t, steps);
                     b.wait();
                     for (i, (k, tag)) in p.into_iter().enumerate() {
                         let got = op(k, tag);
                         if got != exp[i] {
                             mm.fetch_add(1, Ordering::Relaxed);
-                            fb.fetch_min(t * 1000 + i as u64, Ordering::Relaxed);
+                            fb.fetch_min(t as u64 * 1000 + i as u64, Ordering::Relaxed);
                         }
                     }
                 }));
@@ -145,13 +177,13 @@ fn main() {
             let m = mismatches.load(Ordering::Relaxed);
             if m != 0 {
                 let fb = first_bad.load(Ordering::Relaxed);
-                println!("MISMATCH count={} first_thread={} first_step={}", m, fb / 1000, fb % 1000);
+                println!("MISMATCH workload={} count={} first_thread={} first_step={}", w, m, fb / 1000, fb % 1000);
                 std::process::exit(1);
             }
-            println!("OK threads={} steps={}", threads, steps);
+            println!("OK workload={}", w);
         }
         _ => {
-            eprintln!("usage: mirithreads expected|plan|run <workload_seed> <threads> <steps> [expected]");
+            eprintln!("usage: mirithreads expected|plan|run <base_seed> <nworkloads> [table] [idx]");
             std::process::exit(2);
         }
     }
